@@ -76,6 +76,13 @@ FAULT_TABLE = [
     ('SUM', ['1', '', 'n', 'n'], ['MissingInput']), ('L', ['', 'x'], ['MissingInput', None]),
 ]
 
+# division by an exact zero, whatever the numerator (scalar, vector, matrix, itself zero or not) and however the zero is spelt
+_ZD_NUMS = ['[0,0]', '[0,1]', '[1,2]', '([1,2]-[1,2])', '[[0,0],[0,0]]', '[[1,2],[3,4]]', '0*[1,2]', '[0,0]*1', '0', '1', 'i',
+            '[i,0]', '[0,0,0]', '-[0,0]']
+_ZD_ZEROS = ['0', '(1-1)', '0*i', '(0*i)', 'sin(0)', '0.0', '(2-2)', '-0', '(i-i)', '0^2', '(0+0*i)']
+FAULT_TABLE += [('M', n + '/' + z, ['CalcZeroDivisionError']) for n in _ZD_NUMS for z in _ZD_ZEROS]
+FAULT_TABLE += [('M', n + '/[0]', ['CalcZeroDivisionError']) for n in _ZD_NUMS if '[' in n]
+
 
 def gates(tier):
     return {'calls': 15000, 'inner_mitx_errors': 3000, 'inner_foreign_errors': 200, 'generic_messages_checked': 200,
